@@ -4,6 +4,7 @@ import PortusModel.Driver.Bkd
 import PortusModel.Driver.Ctl
 import PortusModel.Driver.Lang
 import PortusModel.Driver.Rt
+import PortusModel.Driver.Vm
 /-! `pmodel`: the line-protocol driver around the model's executable definitions. -/
 open Portus.Driver
 
@@ -15,6 +16,7 @@ def dispatch (cmd : String) (args : List String) : String :=
   | "RT" => rt args
   | "BKD" => bkd args
   | "RUN" => runCmd args
+  | "VM" => vmCmd args
   | "CMP" => cmp args
   | "AST" => ast args
   | "ORC" => (match args with
@@ -26,6 +28,7 @@ def dispatch (cmd : String) (args : List String) : String :=
     | "C13" :: rest => orcC13 rest
     | "C14" :: rest => orcC14 rest
     | "C03" :: rest => orcC03 rest
+    | "C01" :: rest => orcC01 rest
     | "C02" :: rest => orcTrace Portus.Rt.checkC02 rest
     | "C09" :: rest => orcTrace Portus.Rt.checkC09 rest
     | "C16" :: rest => orcTrace Portus.Rt.checkC16 rest
